@@ -40,14 +40,22 @@ pub fn leaf_bits(src: &str) -> Result<Arc<Bits>, String> {
 
 /// `cache = false` for one-off measurements (C08 measures ~10^5 distinct whole classes of 139 KB each)
 pub fn leaf_bits_opt(src: &str, cache: bool) -> Result<Arc<Bits>, String> {
-    if let Some(b) = LEAF_CACHE.lock().unwrap().get_or_insert_with(HashMap::new).get(src) {
+    leaf_bits_how(src, cache, true)
+}
+
+/// `shortcut = false`: top-level literals and the dot are measured through the public API too
+/// (C08's base facts) instead of being taken from the parser's AST
+pub fn leaf_bits_how(src: &str, cache: bool, shortcut: bool) -> Result<Arc<Bits>, String> {
+    if !shortcut {
+        debug_assert!(!cache);
+    } else if let Some(b) = LEAF_CACHE.lock().unwrap().get_or_insert_with(HashMap::new).get(src) {
         return Ok(b.clone());
     }
     let mut bits = vec![0u64; N_SCALARS / 64];
     let ast = regex_syntax::ast::parse::Parser::new().parse(src).map_err(|e| e.to_string())?;
     match &ast {
-        regex_syntax::ast::Ast::Literal(l) => set(&mut bits, l.c as usize),
-        regex_syntax::ast::Ast::Dot(_) => {
+        regex_syntax::ast::Ast::Literal(l) if shortcut => set(&mut bits, l.c as usize),
+        regex_syntax::ast::Ast::Dot(_) if shortcut => {
             for c in (0..=0x10FFFFu32).filter_map(char::from_u32) {
                 if c != '\n' && c != '\r' {
                     set(&mut bits, c as usize);
@@ -329,7 +337,9 @@ pub fn programs_from(sources: &[String]) -> Vec<(String, Vec<RealMode>)> {
             let seed: u64 = parts[2].parse().unwrap();
             let mut r = rand::rngs::StdRng::seed_from_u64(seed ^ 0xd0_d0);
             for k in 0..n {
-                progs.push((format!("random:{}:{seed}#{k}", parts[0]), crate::record::gen_modes(&mut r, &p)));
+                let mut modes = crate::record::gen_modes(&mut r, &p);
+                crate::record::share_types(&mut r, &mut modes);
+                progs.push((format!("random:{}:{seed}#{k}", parts[0]), modes));
             }
         } else if s == "classpairs" {
             // every ordered pair of leaf classes that are easy to confuse (same text up to case,
@@ -345,6 +355,32 @@ pub fn programs_from(sources: &[String]) -> Vec<(String, Vec<RealMode>)> {
                         crate::parse::RealPat { pattern: format!("{b}"), tt: 3, la: None },
                     ];
                     progs.push((format!("classpairs#{i}-{j}"), vec![RealMode { name: "M".into(), pats, trans: vec![] }]));
+                }
+            }
+        } else if s == "sharedtt" {
+            // several patterns of one mode reporting the same token type (C02 speaks of the SET of
+            // token types that have a matching pattern): chains that need several refinement
+            // rounds in the minimiser next to one-character patterns, all 3- and 4-subsets
+            let pool = ["a", "b", "c", "ab", "aab", "aaab", "aaaab", "ba", "[ab]+", "ab|ac", "a+b", "(ab)*c"];
+            let tts3: [[usize; 3]; 3] = [[1, 1, 1], [1, 1, 2], [2, 1, 2]];
+            let tts4: [[usize; 4]; 3] = [[1, 1, 2, 2], [1, 1, 1, 2], [3, 1, 1, 1]];
+            let n = pool.len();
+            let mk = |idx: &[usize], tts: &[usize]| -> Vec<RealMode> {
+                vec![RealMode { name: "M".into(), trans: vec![],
+                    pats: idx.iter().zip(tts).map(|(i, t)| crate::parse::RealPat { pattern: pool[*i].to_string(), tt: *t, la: None }).collect() }]
+            };
+            for i in 0..n {
+                for j in 0..n {
+                    for k in 0..n {
+                        if i != j && j != k && i != k && i < k {
+                            progs.push((format!("sharedtt#{i}-{j}-{k}"), mk(&[i, j, k], &tts3[(i + j + k) % 3])));
+                        }
+                        for l in (k + 1)..n {
+                            if i < j && j < k {
+                                progs.push((format!("sharedtt#{i}-{j}-{k}-{l}"), mk(&[i, j, k, l], &tts4[(i + j + k + l) % 3])));
+                            }
+                        }
+                    }
                 }
             }
         } else if s == "corpus" {
